@@ -14,6 +14,7 @@ import (
 	"fmt"
 	"net"
 	"sort"
+	"strings"
 	"syscall"
 
 	"github.com/Jigsaw-Code/outline-ss-server/service"
@@ -37,6 +38,7 @@ type spec struct {
 	N      int  // connections / datagrams
 	Reacq  bool // after everything closed: acquire again and deliver one more
 	FailFirst bool // the very first acquire fails (address in use), the following ones succeed
+	ListenRace bool // a further listen on the address races the closes: it must succeed whatever the timing
 }
 
 func (s spec) name() string {
@@ -44,7 +46,7 @@ func (s spec) name() string {
 	if s.Packet {
 		k = "packet"
 	}
-	return fmt.Sprintf("%s[close2=%v,n=%d,reacq=%v,failfirst=%v]", k, s.Close2, s.N, s.Reacq, s.FailFirst)
+	return fmt.Sprintf("%s[close2=%v,n=%d,reacq=%v,failfirst=%v,listenrace=%v]", k, s.Close2, s.N, s.Reacq, s.FailFirst, s.ListenRace)
 }
 
 type obsT struct {
@@ -119,6 +121,17 @@ func streamScenario(s spec) *engine.Scenario {
 		t2 := vrt.Spawn("h2", user("h2", ln2))
 		if s.Close2 {
 			ts = append(ts, t2, vrt.Spawn("closer2", closer("h2", ln2)))
+		}
+		if s.ListenRace {
+			ts = append(ts, vrt.Spawn("late-listener", func() {
+				vrt.Yield("late-listener")
+				ln3, err := m.ListenStream(addr)
+				if err != nil {
+					o.errs = append(o.errs, "a listen racing the last close failed: "+err.Error())
+					return
+				}
+				ln3.Close()
+			}))
 		}
 		tc := vrt.Spawn("connector", func() {
 			for i := 0; i < s.N; i++ {
@@ -214,7 +227,11 @@ func check(s spec, o *obsT, x *vrt.Exec) (string, bool, []*engine.Finding) {
 			add("socket-not-released", "the shared socket is still bound after the last handle closed")
 		}
 		if len(o.errs) > 0 {
-			add("unexpected-error", "%v", o.errs)
+			sig := "unexpected-error"
+			if strings.Contains(o.errs[0], "racing the last close") {
+				sig = "socket-not-released{listen-racing-last-close}"
+			}
+			add(sig, "%v", o.errs)
 		}
 		if len(o.dialErrs) > 0 && !s.Close2 {
 			add("connection-refused", "a handle was open all the time but %v", o.dialErrs)
@@ -291,6 +308,17 @@ func packetScenario(s spec) *engine.Scenario {
 		if s.Close2 {
 			ts = append(ts, t2, vrt.Spawn("closer2", closer("h2", pc2)))
 		}
+		if s.ListenRace {
+			ts = append(ts, vrt.Spawn("late-listener", func() {
+				vrt.Yield("late-listener")
+				pc3, err := m.ListenPacket(addr)
+				if err != nil {
+					o.errs = append(o.errs, "a listen racing the last close failed: "+err.Error())
+					return
+				}
+				pc3.Close()
+			}))
+		}
 		sender, _ := vnet.EnvListenUDP(world.UDPAddr("203.0.113.7:5000"))
 		tc := vrt.Spawn("sender", func() {
 			for i := 0; i < s.N; i++ {
@@ -342,6 +370,7 @@ func specs(tier string) []spec {
 			spec{Packet: p, Close2: true, N: 2, Reacq: true},
 			spec{Packet: p, Close2: true, N: 1},
 			spec{Packet: p, Close2: true, N: 1, FailFirst: true},
+			spec{Packet: p, Close2: true, N: 0, ListenRace: true},
 		)
 		if tier == "thorough" {
 			out = append(out, spec{Packet: p, Close2: false, N: 3}, spec{Packet: p, Close2: true, N: 3, Reacq: true})
@@ -351,6 +380,12 @@ func specs(tier string) []spec {
 }
 
 func Scenarios(tier string) []*engine.Scenario { return scenarios(tier) }
+
+// HandoverScenarios: one handle closes while the other stays open and keeps accepting - what a
+// reload does to a retained address (new generation acquired, old generation closed). Used by C11.
+func HandoverScenarios() []*engine.Scenario {
+	return []*engine.Scenario{streamScenario(spec{Close2: false, N: 2}), packetScenario(spec{Packet: true, Close2: false, N: 2})}
+}
 
 func scenarios(tier string) []*engine.Scenario {
 	var out []*engine.Scenario
